@@ -124,6 +124,9 @@ namespace AIToolbox::Factored::Bandit {
             x_l += currMin;
         }
         AI_LOGGER(AI_SEVERITY_DEBUG, "Current bounds: lower = " << x_l << "; higher = " << x_u);
+#ifdef AITOOLBOX_VERIF
+        if (UCVE::verifBoundsObserver) UCVE::verifBoundsObserver(agent, x_l, x_u);
+#endif
     }
 
     void Global::initNewFactor() {
